@@ -3,6 +3,7 @@ import json
 import os
 
 import checks_flow as cf
+import checks_pool as cp
 import gen
 import vlib
 from runner import Check
@@ -76,7 +77,57 @@ def plan_C16(ck):
               nontrivial=cf.nontrivial_world)
 
 
-PLANS = {"C09": plan_C09, "C16": plan_C16, "C01": plan_C01, "C02": plan_C02, "C03": plan_C03, "C04": plan_C04, "C05": plan_C05, "C06": plan_C06,
+POOL_SPEC = ("PoolTrace.tla", "PoolTrace.cfg")
+TSAN_POOL_BUILD = dict(sources=["main.cpp", "pool_driver.cpp", "stubs.cpp", "stubs_flow.cpp"], name="fsl_harness_pool_tsan")
+TSAN_ENV = {"TSAN_OPTIONS": "exitcode=66 halt_on_error=1 report_signal_unsafe=0"}
+
+
+def blocks_replay(ck):
+    """B1: TLC enumerates every (first, last, n, min) tuple of the bounded Blocks specification (after
+    checking the partition property on all of them); each is replayed through the real blocks class."""
+    q = ck.tier == "quick"
+    out = os.path.join(ck.workdir, "blocks-tuples.ndjson")
+    r = vlib.run_tlc("MCBlocks.tla", "MCBlocks_quick.cfg" if q else "MCBlocks_thorough.cfg", env={"BLOCKS_OUT": out},
+                     workers=4, timeout=1500)
+    ck.ev.add_model("Blocks-partition-all-tuples", r, "ASSUME AllOK: PartitionOK for every tuple of the bounded domain (evaluated by TLC); tuples written out for replay")
+    if r.error is not None:
+        if "Assumption" in r.out:
+            ck.report(conjunct="model:Blocks:PartitionOK", case_id="model:Blocks", replay=None, case=dict(kind="model", model="Blocks"))
+            return
+        raise vlib.MachineryError("MCBlocks failed:\n" + (r.error_text or r.out[-2000:]))
+    tuples = [json.loads(l) for l in open(out)]
+    ck.ev.cov["blocks_tuples"] = len(tuples)
+    cases = []
+    for i in range(0, len(tuples), 400):
+        cases.append(dict(kind="pool", id="blocks-%d" % i, blocks=[[t["first"], t["last"], t["n"], t["min"]] for t in tuples[i:i + 400]]))
+    ck.traces(cases, [], tag="blocks", spec=("BlocksTrace.tla", "BlocksTrace.cfg"), sample_events=("Blocks",))
+
+
+def plan_C11(ck):
+    q = ck.tier == "quick"
+    blocks_replay(ck)
+    note = "every interleaving of caller and workers at the granularity of the atomic accesses: ExactlyOnce, NoDataRace (release/acquire happens-before ghosts), MutexOK, Termination under weak fairness"
+    ck.model("ThreadPool-A-2workers", "MCThreadPool.tla", "MCThreadPool_A.cfg", note=note)
+    ck.model("ThreadPool-C-idempotent-calls", "MCThreadPool.tla", "MCThreadPool_C.cfg", note=note)
+    ck.model("ThreadPool-E-destroy-unused", "MCThreadPool.tla", "MCThreadPool_E.cfg", note=note)
+    ck.model("ThreadPool-A-relaxed-orders", "MCThreadPool.tla", "MCThreadPool_A_relaxed.cfg", expect="violation",
+             note="negative control: with relaxed flag accesses TLC finds the data race on the job vector")
+    ck.model("ThreadPool-A-unlocked-notify", "MCThreadPool.tla", "MCThreadPool_A_unlocked.cfg", expect="violation",
+             note="negative control: notify_all without the mutex loses a wake-up (Termination violated)")
+    if not q:
+        ck.model("ThreadPool-B-3workers-resizes", "MCThreadPool.tla", "MCThreadPool_B.cfg", note=note, timeout=3000)
+        ck.model("ThreadPool-D-initial-size-10", "MCThreadPool.tla", "MCThreadPool_D.cfg", note=note, timeout=3000)
+        ck.model("ThreadPool-F-4workers", "MCThreadPool.tla", "MCThreadPool_F.cfg", note=note, timeout=6000, xmx="24g")
+    ck.traces(list(cp.pool_cases(ck.seed + 11, 150 if q else 3000, "C11")) + list(cp.lost_wakeup_cases("C11")), [], tag="c11",
+              spec=POOL_SPEC, diag=False, timeout_ms=20000, sample_events=("PoolNew", "g"))
+    # run-time observer of the happens-before relation: the same programs free-running under
+    # ThreadSanitizer (a race report or a hang ends the execution: NoReturn, rejected)
+    ck.traces(list(cp.pool_cases(ck.seed + 12, 40 if q else 600, "C11tsan", ctrl=0)), [], tag="c11tsan", flavor="tsan",
+              build=TSAN_POOL_BUILD, env=TSAN_ENV, spec=("PoolFree.tla", "PoolFree.cfg"), diag=False, timeout_ms=60000,
+              sample_events=("PoolNew", "cb"), nproc=8)
+
+
+PLANS = {"C11": plan_C11, "C09": plan_C09, "C16": plan_C16, "C01": plan_C01, "C02": plan_C02, "C03": plan_C03, "C04": plan_C04, "C05": plan_C05, "C06": plan_C06,
          "C19": plan_C19}
 
 
